@@ -249,6 +249,17 @@ def exc_matches(cls, names):
     return False
 
 
+def _faultmap(fault):
+    """None | (k, cls) | [(k, cls), ...] -> {k: cls}"""
+    if not fault:
+        return {}
+    if isinstance(fault, dict):
+        return {int(k): v for k, v in fault.items()}
+    if isinstance(fault[0], (list, tuple)):
+        return {int(k): c for k, c in fault}
+    return {int(fault[0]): fault[1]}
+
+
 class Scope:
     def __init__(self, kind, parent):
         self.kind, self.parent, self.vars = kind, parent, {}
@@ -263,7 +274,7 @@ class Interp:
     def __init__(self, fault=None):
         self.tr = Trace()
         self.module = Scope("module", None)
-        self.fault = fault  # (event_index, exc_class) | None
+        self.fault = _faultmap(fault)  # {event_index: exc_class}
         self.nevents = 0
 
     # -- scoping (names are unique by construction in Engine A's generator; see vf/props/c06 for shadowing)
@@ -290,8 +301,8 @@ class Interp:
     def effect(self, eid):
         self.tr.event(eid)
         self.nevents += 1
-        if self.fault is not None and self.fault[0] == self.nevents:
-            raise Raised(self.fault[1], -eid)
+        if self.nevents in self.fault:
+            raise Raised(self.fault[self.nevents], -eid)
 
     def seq(self):
         return _Ctx(self.tr, "seq")
@@ -598,14 +609,14 @@ _EXC = {"XA": XA, "XB": XB, "XC": XC}
 class Harness:
     def __init__(self, fault=None):
         self.log = []
-        self.fault = fault
+        self.fault = _faultmap(fault)
         self.n = 0
 
     def hit(self, eid):
         self.log.append(eid)
         self.n += 1
-        if self.fault is not None and self.fault[0] == self.n:
-            raise _EXC[self.fault[1]](-eid)
+        if self.n in self.fault:
+            raise _EXC[self.fault[self.n]](-eid)
 
     def E(self, eid, v):
         self.hit(eid)
@@ -670,6 +681,54 @@ def run_real(src, fault=None, via="ast", name="vfprog"):
     out["globals"] = mod.__dict__
     out["tree"] = tree
     return out
+
+
+class Compiled:
+    """Compile a program once, run it many times (fresh module namespace per run)."""
+
+    def __init__(self, prog, mode="module", via="ast", name="vfprog"):
+        import ast
+
+        self.prog, self.mode, self.name = prog, mode, name
+        self.src = wrap_source(prog, mode)
+        mod, tree = compile_source(self.src, name)
+        self.tree = tree
+        self.base = dict(mod.__dict__)
+        self.code = compile(tree, "<%s>" % name, "exec") if via == "ast" else compile(ast.unparse(tree), "<%s-unparsed>" % name, "exec")
+
+    def run(self, fault=None):
+        h = Harness(fault)
+        ns = dict(self.base)
+        ns.update(h.namespace())
+        out = dict(value=None, exc=None)
+        try:
+            exec(self.code, ns)
+            out["value"] = canon(ns.get("RESULT"))
+        except (XA, XB, XC) as x:
+            out["exc"] = "%s:%s" % (type(x).__name__, x.payload)
+        out["log"] = h.log
+        out["globals"] = ns
+        return out
+
+    def check(self, fault=None):
+        ref = interpret(self.prog, self.mode, fault)
+        try:
+            real = self.run(fault)
+        except Exception as e:  # noqa
+            return ("real-run-raised:" + type(e).__name__, dict(source=self.src, fault=fault, error=str(e)[:300]))
+        return _judge(self.src, ref, real, fault)
+
+
+def _judge(src, ref, real, fault=None):
+    extra = dict(fault=fault) if fault else {}
+    if ref["exc"] != real["exc"]:
+        return ("exception-differs", dict(source=src, expected=ref["exc"] or "value " + str(ref["value"]), actual=real["exc"] or "value " + str(real["value"]), log=real["log"], **extra))
+    if ref["exc"] is None and ref["value"] != real["value"]:
+        return ("value-differs", dict(source=src, expected=ref["value"], actual=real["value"], log=real["log"], **extra))
+    why = accept(ref["trace"], real["log"])
+    if why:
+        return ("trace:" + why.split(":")[0].split(" {")[0], dict(source=src, why=why, log=real["log"], **extra))
+    return None
 
 
 def compare(prog, mode="module", fault=None, via="ast"):
